@@ -94,6 +94,8 @@ def run(repo, chk):
     cur = [n for n in walk_local(en.node) if isinstance(n, ast.Assign) and norm(n.targets[0]) == "self.curr"]
     chk.ob("R03.4", "overlay.proceed.__enter__:starts-from-current-collection", len(cur) == 1 and "HandlerCollection.current.get()" in norm(cur[0].value), en.where,
            "matching continues from the collection that is current in the caller")
+    from .shared import call_exit_order_obligations
+    call_exit_order_obligations(repo, chk, "R03.4", "a close handler that raises cannot leave the ended activation's half-advanced child selectors installed (they would match calls that have no such caller on the stack)")
     from .shared import activation_integrity_obligations
     activation_integrity_obligations(repo, chk, "R03.4", "probes on a call path")
     from .shared import unfresh_local_mutations
